@@ -5,6 +5,7 @@ import UmProofs.BrokerViewPartF
 import UmProofs.CoordDischarge
 import UmProofs.CoordStale
 import UmProps.C13
+import UmProps.C05
 /-!
 # C07 — the control plane converges despite message faults and coordinator crashes
 
@@ -327,5 +328,27 @@ example : commitMigrationCore exStore "c" [(4096, 8191)] 6 false = (exStore, R.e
   simp only [Cluster.migs, exCluster, Chunk.migs, exChunk0, exChunk1, List.flatMap_cons, List.flatMap_nil,
     List.append_nil, List.cons_append, List.nil_append, List.mem_cons, List.not_mem_nil, or_false] at hm
   rcases hm with rfl | rfl | rfl | rfl <;> simp [exMeta0, exMeta1] at hre
+
+/-! ## overlapping pushes to one proxy
+
+"No proxy ever replaces its metadata by an older version" also has to hold when two pushes to the
+same proxy overlap (two coordinators, a delayed push overtaken by the next epoch, the proxy-sync
+and the migration-sync loop of one coordinator). The coordinator never sets `FORCE`; for unforced
+callers the interleaving model of `MetaManager::set_meta` (`UmModel/SetMetaConc.lean`, tied to the
+code by the `setmeta_conc` stream that this check runs too) gives, for every interleaving of any
+number of callers at the granularity of the shared-memory accesses: no step lowers the installed
+epoch. (`C05_cluster_concurrent` is the full linearizability statement.) -/
+
+theorem C07_overlapping_pushes {C : Type} (announce : Bytes) (e0 : Nat) (c0 : C)
+    (ls : List (SetMetaConc.Label C)) (s s' : SetMetaConc.Sys C) (l : SetMetaConc.Label C)
+    (hrun : SetMetaConc.replay announce (SetMetaConc.Sys.init e0 c0) ls = some s)
+    (hstep : SetMetaConc.step? announce s l = some s')
+    (hnf : ∀ c ∈ s.callers, c.msg.force = false) : s.epoch ≤ s'.epoch := by
+  by_cases h : s'.epoch < s.epoch
+  · obtain ⟨i, c, _, hci, _, hf⟩ := Um.C05.C05_cluster_concurrent_step announce e0 c0 ls s s' l hrun hstep h
+    have hm : c ∈ s.callers := List.mem_of_getElem? hci
+    rw [hnf c hm] at hf
+    cases hf
+  · omega
 
 end Um.Coord.C07
